@@ -17,7 +17,7 @@ from harness.C17 import prim_flags
 
 KINDS = [('signed', 1), ('signed', 2), ('signed', 4), ('signed', 8), ('unsigned', 1), ('unsigned', 2),
          ('unsigned', 4), ('unsigned', 8), ('bool', 1), ('float', 4), ('float', 8), ('char', 1),
-         ('pointer', 8), ('funcptr', 8), ('struct', 12)]
+         ('pointer', 8), ('funcptr', 8), ('struct', 12), ('wchar', 2), ('wchar', 4)]
 
 REPLAY = r'''
 # Replay for C18 against the real cffi build: ffi.unpack(p, n) vs [p[i] for i in range(n)]
@@ -28,7 +28,7 @@ kind, size, n, mis, data = case['kind'], case['size'], case['n'], case['misalign
 ffi.cdef('struct s12 { char c[12]; };')
 tn = {'signed': {1: 'signed char', 2: 'short', 4: 'int', 8: 'long long'}, 'unsigned': {1: 'unsigned char', 2: 'unsigned short', 4: 'unsigned int', 8: 'unsigned long long'},
       'bool': {1: '_Bool'}, 'float': {4: 'float', 8: 'double'}, 'char': {1: 'char'}, 'pointer': {8: 'int *'},
-      'funcptr': {8: 'int(*)(void)'}, 'struct': {12: 'struct s12'}}[kind][size]
+      'funcptr': {8: 'int(*)(void)'}, 'struct': {12: 'struct s12'}, 'wchar': {2: 'char16_t', 4: 'char32_t'}}[kind][size]
 raw = ffi.new('char[]', 16 + len(data) + 16)
 base = int(ffi.cast('uintptr_t', raw))
 start = (-base) %% 16 + mis
@@ -44,6 +44,10 @@ b = run(lambda: [p[i] for i in range(n)])
 if a[0] == 'ok' and b[0] == 'ok':
     if kind == 'char':
         same = a[1] == b''.join(b[1])
+    elif kind == 'wchar':
+        # char16_t items are UTF-16 code units: unpack() decodes pairs, p[i] hands out the units
+        enc = lambda s: s.encode('utf-16-le' if size == 2 else 'utf-32-le', 'surrogatepass')
+        same = enc(a[1]) == enc(''.join(b[1]))
     elif kind == 'struct':
         same = len(a[1]) == len(b[1]) and all(ffi.addressof(x) == ffi.addressof(y) for x, y in zip(a[1], b[1]))
     elif kind == 'float':
@@ -119,6 +123,8 @@ def worker(args):
         iflags = F['CT_POINTER'] if kind == 'pointer' else F['CT_FUNCTIONPTR']
     elif kind == 'struct':
         iflags = F['CT_STRUCT']
+    elif kind == 'wchar':
+        iflags = F['CT_PRIMITIVE_CHAR'] | F['CT_PRIMITIVE_FITS_LONG']
     else:
         iflags = prim_flags(F, kind, size)
 
@@ -197,6 +203,37 @@ def worker(args):
                 disch('bytes==joined-elements', llsym.b_and(
                     *[llsym.eq(a, b, 8) for a, b in zip(py.info(res)['data'], joined)]))
             return
+        if kind == 'wchar' and ref_exc is None:
+            hutil.witness(chk, ex, label + ':str:n=%d' % ns)
+            okk = is_c(res) and res != 0 and exc1 is None and py.info(res)['kind'] == 'str'
+            disch('elementwise-ok=>unpack-returns-str', okk)
+            if not okk:
+                return
+            ukind, got = py.read_unicode(res)
+            got = [llsym.zext(c, 8 * ukind, 32) if not is_c(c) else c for c in got]
+            elems = []
+            for o in ref:
+                k1, c1 = py.read_unicode(o)
+                if len(c1) != 1:
+                    disch('p[i]-is-one-character', False)
+                    return
+                elems.append(llsym.zext(c1[0], 8 * k1, 32) if not is_c(c1[0]) else c1[0])
+            # the items as a UTF-16 / UTF-32 text: a high surrogate followed by a low one is one character
+            exp, i = [], 0
+            while i < cnt:
+                e0 = bv(elems[i], 32)
+                if size == 2 and i + 1 < cnt:
+                    e1 = bv(elems[i + 1], 32)
+                    if ex.decide(z3.And(z3.UGE(e0, 0xD800), z3.ULE(e0, 0xDBFF), z3.UGE(e1, 0xDC00), z3.ULE(e1, 0xDFFF))):
+                        exp.append((((e0 & 0x3FF) << 10) | (e1 & 0x3FF)) + 0x10000)
+                        i += 2
+                        continue
+                exp.append(e0)
+                i += 1
+            disch('number-of-characters', len(got) == len(exp))
+            if len(got) == len(exp):
+                disch('str==items-decoded-as-utf%d' % (8 * size), llsym.b_and(*[bv(a_, 32) == b_ for a_, b_ in zip(got, exp)]))
+            return
         if ref_exc is not None:
             hutil.witness(chk, ex, label + ':element-error')
             disch('elementwise-fails=>unpack-fails-same-exception', (res == 0) and exc1 == ref_exc[1])
@@ -234,7 +271,9 @@ def run(chk):
                   'misalignment of source pointer': '0..7 (symbolic)', 'alignment field of the item type': 'natural alignment for primitives (= size), any value for pointer/struct items',
                   'item bytes': 'all values'}
     chk.outside = ['lengths above the bound (loop body depends on i only through src += itemsize)',
-                   'wchar_t/char16_t/char32_t items (string conversion: C15)', 'long double and complex items']
+                   'long double and complex items']
     chk.assume('CPython API contracts of vf/pystubs.py; PyArg_ParseTupleAndKeywords delivers (cdata, length)')
+    chk.assume('char16_t items are UTF-16 code units: "joined" means decoded as UTF-16 (a high surrogate followed by a low one is one '
+               'character), which is what p[i] cannot express for a single unit')
     irgen.backend()
     hutil.run_cases(chk, cases, worker)
